@@ -258,11 +258,19 @@ fn run_kmeans(inp: &Value) -> Vec<Value> {
         Ok(h) => h,
         Err(e) => return vec![e],
     };
-    // the same history again, from freshly built parameters (same seed): "a function of the history alone"
-    let h2 = match km_history(inp) {
-        Ok(h) => h,
-        Err(e) => return vec![e],
-    };
+    // the same history again, from freshly built parameters (same seed): "a function of the history alone".
+    // Seeded initialisers are re-run three times; the first re-run that differs (if any) is the one reported.
+    let reruns = if gets(inp, "init") == "pre" { 1 } else { 3 };
+    let mut h2 = Vec::new();
+    for _ in 0..reruns {
+        h2 = match km_history(inp) {
+            Ok(h) => h,
+            Err(e) => return vec![e],
+        };
+        if h2.len() != h1.len() || h1.iter().zip(h2.iter()).any(|(a, b)| a.0 != b.0 || a.3 != b.3) {
+            break;
+        }
+    }
     let mut ev = Vec::new();
     for (i, ((ok, cent, cnt, dig), (ok2, _, _, dig2))) in h1.into_iter().zip(h2.into_iter()).enumerate() {
         ev.push(json!({"ev": "km", "after": i + 1, "ok": ok, "cent": cent, "count": cnt, "dig": dig, "ok2": ok2, "dig2": dig2}));
